@@ -90,11 +90,13 @@ Unusable(a, src) ==
       [] OTHER                                -> FALSE
 
 \* Inputs about which the documentation says nothing (empty source for the sampling
-\* operators, tournament size 0, fewer than 2y+1 members for DE, min > max for IWO):
+\* operators, tournament size 0, fewer than 2y+1 members for DE (2y for DE/best), min > max for IWO):
 \* C11 does not demand an error there; any reply kind is accepted and only recorded.
 Undoc(a, src) ==
     CASE a.op \in {"fully_random", "roulette", "sus", "linear_rank", "exp_rank"} -> Len(src) = 0
       [] a.op = "tournament"  -> a.k = 0
+      \* (DE/best needs 2y members to draw the difference vectors from: the best is taken in addition to them)
+      [] a.op = "de_best"     -> Len(src) < 2 * a.n
       [] a.op \in DeOps       -> Len(src) < 2 * a.n + 1
       [] a.op = "iwo"         -> Len(src) = 0 \/ a.n > a.k
       [] OTHER                -> FALSE
